@@ -107,9 +107,9 @@ def norm(obj, payload):
 
 
 def pre_checks(tier):
-    from ..conformance import real_lock
+    from ..conformance import real_fs, real_lock
 
-    return {"conformance_lock": real_lock.run()}
+    return {"conformance_lock": real_lock.run(), "conformance_fs": real_fs.run()}
 
 
 def budget(tier):
